@@ -1,6 +1,7 @@
 import TR.Lemmas.Cache
 import TR.Lemmas.CacheFifo
 import TR.Lemmas.CacheTtl
+import TR.Lemmas.CacheLayer
 /-!
 # C10 — cache hits return the latest unexpired value of the right key; size is bounded; the victim follows the policy
 
@@ -10,7 +11,8 @@ interleaving of lookups (`arrive` = `call()`), completions (`poll`), cancellatio
 advances, inner outcomes ok / error / panic / never, concurrent misses on one key — and every LFU
 victim choice `w` carried by the `poll` operations (a choice outside the allowed set is replaced by
 an allowed one and flagged `choice-not-allowed`, so the statements hold for all `w`). One model
-state serves every client: a `SharedCacheLayer` used by several services is the same history.
+state serves every client: a `SharedCacheLayer` used by several services is the same history; the
+services of a plain `CacheLayer` value have one such state each (last section before the examples).
 
 Vocabulary: `s.store` is the container; `lookup s.stored k` is the **specification map**
 `key ↦ (value, storedAt)` of the latest successful completion for `k` (`s.stored` lists every
@@ -298,6 +300,99 @@ theorem victim_fifo_oldest_stored (cfg : Cfg) (ops : List Op) (hp : cfg.policy =
 /-- `cap` is `max_size` for every configuration the property quantifies over. -/
 theorem cap_is_max (cfg : Cfg) (hm : 0 < cfg.max) : cfg.cap = cfg.max := cap_eq_max hm
 
+/-! ## a TTL of zero is a TTL
+
+`ttl(Duration::ZERO)` configures `Some(ZERO)`: `is_expired` is `elapsed() > 0`, so an entry is served at the
+instant it was stored (the clock has not moved) and has expired as soon as it has any age at all — the
+`d = 0` instance of `ttl_boundary_exact`. It is not the configuration "no TTL", under which a stored key is
+served for ever (`zero_ttl_is_not_no_ttl`). -/
+
+/-- **TTL 0: served only at the instant of the store.** After any history, for a stored key: its entry was
+stamped at an instant `t ≤ now` (the instant of the latest successful completion for the key); the lookup
+hits exactly when `now = t` and misses — removing the entry, the inner service is called — exactly when
+`t < now`, i.e. as soon as the response is older than the TTL. -/
+theorem ttl_zero_served_only_at_store_instant (cfg : Cfg) (ops : List Op) (k : Nat) (e : Entry)
+    (httl : cfg.ttl = some 0) (hf : find (run cfg ops).store k = some e) :
+    lookup (run cfg ops).stored k = some (e.val, e.ins) ∧ e.ins ≤ (run cfg ops).now ∧
+    ((storeGet cfg (run cfg ops).now (run cfg ops).tick (run cfg ops).store k).2 = some e.val
+      ↔ (run cfg ops).now = e.ins) ∧
+    ((storeGet cfg (run cfg ops).now (run cfg ops).tick (run cfg ops).store k).2 = none
+      ↔ e.ins < (run cfg ops).now) := by
+  have hi := (inv_reachable cfg ops).1
+  have hfr := hi.fresh e (find_some hf).1
+  rw [(find_some hf).2] at hfr
+  have hpast : e.ins ≤ (run cfg ops).now := hi.past _ (lookup_mem hfr)
+  exact ⟨hfr, hpast, storeGet_ttl_zero hf httl hpast⟩
+
+/-- … whereas without a TTL the same stored key hits at every later instant: the two configurations differ
+on every entry of positive age. -/
+theorem zero_ttl_is_not_no_ttl (cfg0 cfgN : Cfg) (h0 : cfg0.ttl = some 0) (hN : cfgN.ttl = none)
+    (now tick k : Nat) (items : List Entry) (e : Entry) (hf : find items k = some e) (hage : e.ins < now) :
+    (storeGet cfg0 now tick items k).2 = none ∧ (storeGet cfgN now tick items k).2 = some e.val :=
+  ⟨(storeGet_ttl_zero hf h0 (Nat.le_of_lt hage)).2.mpr hage, storeGet_no_ttl hf hN⟩
+
+/-! ## several services built from one layer value
+
+`runAt cfg n i ops` is the state of store `i` of `n` after the history `ops` — by definition the
+single-store model run on the operations that concern that store (`concerns`: a request concerns the
+store of the service it is made on, `svc % n`; the clock, polls and drops concern every store). So every
+theorem of this file holds, verbatim, for each store of a plain `CacheLayer`'s services (two instances are
+spelled out below), and the stores do not interact. A plain `CacheLayer` has one store per `layer()` call,
+a `SharedCacheLayer` (or `CacheLayer::shared()`) one store for all of its services. -/
+
+/-- **The stores of a plain layer's services are independent.** One more operation: the store it concerns
+makes exactly that step of the single-store model; every other store is left exactly as it was. -/
+theorem stores_step_independently (cfg : Cfg) (n i : Nat) (ops : List Op) (op : Op) :
+    runAt cfg n i (ops ++ [op]) =
+      if concerns n i op then stepS cfg (runAt cfg n i ops) op else runAt cfg n i ops :=
+  runAt_snoc cfg n i ops op
+
+/-- In particular a request made on another service (`svc % n ≠ i`) — its lookup, its inner call, and
+(next theorem) its completion — changes nothing in store `i`: no entry, no count, no recency, no stamp. -/
+theorem request_on_other_service_leaves_store_alone (cfg : Cfg) (n i : Nat) (ops : List Op)
+    (c key svc : Nat) (sc : Step) (h : svc % n ≠ i) :
+    runAt cfg n i (ops ++ [.arrive c key svc sc]) = runAt cfg n i ops := by
+  rw [runAt_snoc]
+  simp [concerns, h]
+
+/-- A poll (completion, delivery of a hit) or a drop of a caller that has no call in a store's books —
+the caller of another service — is a no-op there. -/
+theorem poll_of_other_service_leaves_store_alone (cfg : Cfg) (s : State) (c w : Nat)
+    (hh : lookup s.hits c = none) (hp : lookup s.pend c = none) :
+    stepS cfg s (.poll c w) = s ∧ stepS cfg s (.drop c) = s :=
+  foreign_poll cfg s c w hh hp
+
+/-- A shared layer: one store; it sees the whole history, whichever service a request is made on. A plain
+layer: as many stores as services, service `k` uses store `k`. -/
+theorem shared_layer_one_store (cfg : Cfg) (nsvc : Nat) (ops : List Op) :
+    nStores true nsvc = 1 ∧ runAt cfg 1 0 ops = run cfg ops ∧
+    ∀ c key svc sc, concerns 1 0 (.arrive c key svc sc) = true := by
+  refine ⟨rfl, ?_, ?_⟩
+  · unfold runAt; rw [proj_one]
+  · intro c key svc sc; simp [concerns, Nat.mod_one]
+
+theorem private_layer_store_per_service (nsvc : Nat) (h : 0 < nsvc) (k : Nat) (hk : k < nsvc) :
+    nStores false nsvc = nsvc ∧ k % nStores false nsvc = k := by
+  rw [nStores_private h]
+  exact ⟨rfl, Nat.mod_eq_of_lt hk⟩
+
+/-- Each store of a plain layer is bounded by `max_size` on its own … -/
+theorem size_bounded_per_store (cfg : Cfg) (hm : 0 < cfg.max) (n i : Nat) (ops : List Op) :
+    (runAt cfg n i ops).store.length ≤ cfg.max :=
+  size_bounded cfg hm (proj n i ops)
+
+/-- … and a hit on a service returns the latest unexpired value stored *in that service's store*. -/
+theorem hit_is_latest_per_store (cfg : Cfg) (n i : Nat) (ops : List Op) (k v : Nat)
+    (h : (storeGet cfg (runAt cfg n i ops).now (runAt cfg n i ops).tick (runAt cfg n i ops).store k).2 = some v) :
+    ∃ t, lookup (runAt cfg n i ops).stored k = some (v, t) ∧ t ≤ (runAt cfg n i ops).now ∧
+      ∀ d, cfg.ttl = some d → (runAt cfg n i ops).now - t ≤ d :=
+  hit_is_latest cfg (proj n i ops) k v h
+
+/-- The builder's defaults (no `max_size` / `ttl` / `eviction_policy` call) are within the property's
+quantifier: `max_size = 100 ≥ 1`, no TTL, LRU. -/
+theorem builder_defaults_ok : 0 < builderDefaults.max ∧ builderDefaults.cap = 100 ∧
+    builderDefaults.ttl = none ∧ builderDefaults.policy = .lru := by decide
+
 /-! ## non-vacuity: concrete histories -/
 
 /-- LRU, `max = 2`, ttl 10: a and b stored, a read (hit, returns a's serial 0), c stored ⇒ b is the
@@ -397,5 +492,27 @@ example :
     ((run cfg (ops ++ [.poll 3 2])).store.map (·.key)) = [1, 3] ∧
     Ev.raw "choice-not-allowed" ∈ (run cfg (ops ++ [.poll 3 7])).log ∧
     Ev.raw "choice-not-allowed" ∉ (run cfg (ops ++ [.poll 3 2])).log := by decide
+
+/-- TTL 0 (the history of seeded change C10-w5m1): key 1 stored at 0; a second request at the same instant
+is a hit; one tick later the entry is older than the TTL: the lookup misses, removes it and calls the inner
+service (serial 1). With "no TTL" the same request is a hit — the two configurations are different. -/
+example :
+    let cfg0 : Cfg := { max := 2, ttl := some 0, policy := .lru }
+    let cfgN : Cfg := { max := 2, ttl := none, policy := .lru }
+    let ops := [Op.arrive 1 1 0 ⟨0, .ok⟩, .poll 1 0, .arrive 2 1 0 ⟨0, .ok⟩, .poll 2 0, .adv 1, .arrive 3 1 0 ⟨0, .ok⟩]
+    (run cfg0 ops).log.getLast? = some (.innerCall 3 1) ∧ (run cfg0 ops).store = [] ∧
+    Ev.result 2 (.ok 0) ∈ (run cfg0 ops).log ∧ Ev.innerCall 2 1 ∉ (run cfg0 ops).log ∧
+    lookup (run cfgN ops).hits 3 = some 0 ∧ (run cfgN ops).serial = 1 := by decide
+
+/-- Two services of a plain layer (`n = 2`): key 1 stored through service 0 is a miss on service 1 (its own,
+empty store: inner call with that store's first serial) and a hit on service 0; `svc = 2` is service 0
+again. With one store (`n = 1`, a shared layer) the request on service 1 is a hit. -/
+example :
+    let cfg : Cfg := { max := 1, ttl := none, policy := .fifo }
+    let ops := [Op.arrive 1 1 0 ⟨0, .ok⟩, .poll 1 0, .arrive 2 1 1 ⟨0, .ok⟩, .arrive 3 1 2 ⟨0, .ok⟩]
+    (runAt cfg 2 0 ops).store.map (·.key) = [1] ∧ lookup (runAt cfg 2 0 ops).hits 3 = some 0 ∧
+    (runAt cfg 2 1 ops).store = [] ∧ lookup (runAt cfg 2 1 ops).hits 2 = none ∧
+    Ev.innerCall 2 0 ∈ (runAt cfg 2 1 ops).log ∧
+    lookup (runAt cfg 1 0 ops).hits 2 = some 0 ∧ (runAt cfg 1 0 ops).serial = 1 := by decide
 
 end TR.Props.C10
